@@ -179,6 +179,21 @@ theorem InvVSR_open {db : Db} {r : Roots} {s' : St} (h : openSt db r = some s') 
       exact (enc_of_dec _ _ hi).symm
   · intro k r' hr'; rw [hr] at hr'; simp [aget] at hr'
 
+theorem InvVSR_updateValF {s : St} (h : InvVSR s) (a : Bytes) (v : Val) : InvVSR (updateValF s a v) := by
+  unfold updateValF
+  split
+  · split
+    · exact InvVSR_of_eq (InvVSR_putVal h a v s.stat) rfl rfl rfl rfl rfl rfl rfl rfl
+    · exact InvVSR_putVal h a v _
+  · exact h
+
+theorem InvVSR_updDelegatorF (P : Prim) {s : St} (h : InvVSR s) (a v : Bytes) (d : Int) (del : Bool) :
+    InvVSR (updDelegatorF P s a v d del) := by
+  unfold updDelegatorF
+  split
+  · exact InvVSR_of_eq h rfl rfl rfl rfl rfl rfl rfl rfl
+  · exact h
+
 theorem InvVSR_step (P : Prim) {s : St} (h : InvVSR s) (op : Op) : InvVSR (step P s op) := by
   cases op with
   | setBalance a n => exact InvVSR_of_eq h rfl rfl rfl rfl rfl rfl rfl rfl
@@ -197,23 +212,27 @@ theorem InvVSR_step (P : Prim) {s : St} (h : InvVSR s) (op : Op) : InvVSR (step 
     · exact InvVSR_of_eq h rfl rfl rfl rfl rfl rfl rfl rfl
     · exact h
   | createContract a => exact InvVSR_of_eq h rfl rfl rfl rfl rfl rfl rfl rfl
-  | updDelegator a v d del =>
-    simp only [step]
-    split
-    · exact InvVSR_of_eq h rfl rfl rfl rfl rfl rfl rfl rfl
-    · exact h
+  | updDelegator a v d del => exact InvVSR_updDelegatorF P h a v d del
   | createVal a v =>
     simp only [step]
     split
     · exact h
     · exact InvVSR_putVal h a v _
-  | updateVal a v =>
+  | updateVal a v => exact InvVSR_updateValF h a v
+  | setDlg a d st tk =>
     simp only [step]
     split
-    · split
-      · exact InvVSR_of_eq (InvVSR_putVal h a v s.stat) rfl rfl rfl rfl rfl rfl rfl rfl
-      · exact InvVSR_putVal h a v _
+    · exact InvVSR_updateValF h a _
     · exact h
+  | delegate d a amt =>
+    simp only [step]
+    split
+    · exact h
+    · split
+      · exact h
+      · split
+        · exact h
+        · exact InvVSR_updDelegatorF P (InvVSR_updateValF h a _) _ _ _ _
   | statRewards i k n => exact InvVSR_of_eq h rfl rfl rfl rfl rfl rfl rfl rfl
   | addWithdraw w => exact InvVSR_of_eq h rfl rfl rfl rfl rfl rfl rfl rfl
   | removeWithdraw idx => exact InvVSR_of_eq h rfl rfl rfl rfl rfl rfl rfl rfl
@@ -605,6 +624,21 @@ theorem InvA_open {P : Prim} {s : St} (h : InvA P s) (del : Bool) {s' : St}
   · rw [e1]; exact (InvA_commit h del).a5
   · intro a ha; rw [e4] at ha; simp at ha
 
+theorem InvA_updateValF {P : Prim} {s : St} (h : InvA P s) (a : Bytes) (v : Val) : InvA P (updateValF s a v) := by
+  unfold updateValF
+  split
+  · split
+    · exact InvA_of_eq h rfl rfl rfl rfl rfl rfl
+    · exact InvA_of_eq h rfl rfl rfl rfl rfl rfl
+  · exact h
+
+theorem InvA_updDelegatorF {P : Prim} {s : St} (h : InvA P s) (a v : Bytes) (d : Int) (del : Bool) :
+    InvA P (updDelegatorF P s a v d del) := by
+  unfold updDelegatorF
+  split
+  · exact InvA_putAcct h _ _
+  · exact h
+
 theorem InvA_step (P : Prim) {s : St} (h : InvA P s) (op : Op) : InvA P (step P s op) := by
   cases op with
   | setBalance a n => exact InvA_putAcct h _ _
@@ -623,23 +657,27 @@ theorem InvA_step (P : Prim) {s : St} (h : InvA P s) (op : Op) : InvA P (step P 
     · exact InvA_putAcct h _ _
     · exact h
   | createContract a => exact InvA_putAcct h _ _
-  | updDelegator a v d del =>
-    simp only [step]
-    split
-    · exact InvA_putAcct h _ _
-    · exact h
+  | updDelegator a v d del => exact InvA_updDelegatorF h a v d del
   | createVal a v =>
     simp only [step]
     split
     · exact h
     · exact InvA_of_eq h rfl rfl rfl rfl rfl rfl
-  | updateVal a v =>
+  | updateVal a v => exact InvA_updateValF h a v
+  | setDlg a d st tk =>
     simp only [step]
     split
-    · split
-      · exact InvA_of_eq h rfl rfl rfl rfl rfl rfl
-      · exact InvA_of_eq h rfl rfl rfl rfl rfl rfl
+    · exact InvA_updateValF h a _
     · exact h
+  | delegate d a amt =>
+    simp only [step]
+    split
+    · exact h
+    · split
+      · exact h
+      · split
+        · exact h
+        · exact InvA_updDelegatorF (InvA_updateValF h a _) _ _ _ _
   | statRewards i k n => exact InvA_of_eq h rfl rfl rfl rfl rfl rfl
   | addWithdraw w => exact InvA_of_eq h rfl rfl rfl rfl rfl rfl
   | removeWithdraw idx => exact InvA_of_eq h rfl rfl rfl rfl rfl rfl
@@ -1305,6 +1343,219 @@ theorem CEq_stkContent (p₁ p₂ : StkPart) (hr : CEq p₁.recs p₂.recs) (hl 
   rw [hl]
   intro k
   simp only [cget_cons, hr k]
+
+
+
+
+/-! ## a validator's delegation list: sorted insert, independent of the arrival order -/
+
+def DSorted (l : List Dlg) : Prop := l.Pairwise (fun x y => blt x.delegator y.delegator = true)
+
+theorem dfind_cons (y : Dlg) (t : List Dlg) (k : Bytes) : dfind (y :: t) k = if y.delegator = k then some y else dfind t k := rfl
+
+theorem dinsert_cons (x y : Dlg) (t : List Dlg) :
+    dinsert x (y :: t) = if blt x.delegator y.delegator = true then x :: y :: t else if x.delegator = y.delegator then x :: t else y :: dinsert x t := rfl
+
+theorem dfind_dinsert (x : Dlg) (l : List Dlg) (k : Bytes) :
+    dfind (dinsert x l) k = if x.delegator = k then some x else dfind l k := by
+  induction l with
+  | nil => simp [dinsert, dfind]
+  | cons y t ih =>
+    rw [dinsert_cons]
+    cases h1 : blt x.delegator y.delegator with
+    | true => simp [dfind_cons]
+    | false =>
+      simp only [Bool.false_eq_true, if_false]
+      by_cases h2 : x.delegator = y.delegator
+      · simp only [h2, if_true, dfind_cons]; by_cases h3 : y.delegator = k <;> simp [h3]
+      · simp only [h2, if_false, dfind_cons, ih]
+        by_cases h3 : y.delegator = k
+        · subst h3; simp [h2]
+        · simp [h3]
+
+theorem dinsert_mem (x : Dlg) (l : List Dlg) (y : Dlg) (hy : y ∈ dinsert x l) : y = x ∨ y ∈ l := by
+  induction l with
+  | nil => simp [dinsert] at hy; exact Or.inl hy
+  | cons z t ih =>
+    rw [dinsert_cons] at hy
+    cases h1 : blt x.delegator z.delegator with
+    | true =>
+      simp only [h1, if_true] at hy
+      rcases List.mem_cons.mp hy with h | h
+      · exact Or.inl h
+      · exact Or.inr h
+    | false =>
+      simp only [h1, Bool.false_eq_true, if_false] at hy
+      by_cases h2 : x.delegator = z.delegator
+      · simp only [h2, if_true] at hy
+        rcases List.mem_cons.mp hy with h | h
+        · exact Or.inl h
+        · exact Or.inr (List.mem_cons_of_mem _ h)
+      · simp only [h2, if_false] at hy
+        rcases List.mem_cons.mp hy with h | h
+        · right; rw [h]; exact List.mem_cons_self
+        · rcases ih h with h' | h'
+          · exact Or.inl h'
+          · exact Or.inr (List.mem_cons_of_mem _ h')
+
+/-- the sorted insert keeps the list strictly sorted -/
+theorem dinsert_sorted (x : Dlg) (l : List Dlg) (hs : DSorted l) : DSorted (dinsert x l) := by
+  induction l with
+  | nil => simp [dinsert, DSorted]
+  | cons z t ih =>
+    unfold DSorted at hs ⊢
+    rw [List.pairwise_cons] at hs
+    obtain ⟨hx, ht⟩ := hs
+    rw [dinsert_cons]
+    cases h1 : blt x.delegator z.delegator with
+    | true =>
+      simp only [if_true]
+      rw [List.pairwise_cons]
+      refine ⟨?_, List.pairwise_cons.mpr ⟨hx, ht⟩⟩
+      intro y hy
+      rcases List.mem_cons.mp hy with h | h
+      · rw [h]; exact h1
+      · exact blt_trans _ _ _ h1 (hx y h)
+    | false =>
+      simp only [Bool.false_eq_true, if_false]
+      by_cases h2 : x.delegator = z.delegator
+      · simp only [h2, if_true]
+        rw [List.pairwise_cons]
+        exact ⟨fun y hy => by rw [h2]; exact hx y hy, ht⟩
+      · simp only [h2, if_false]
+        rw [List.pairwise_cons]
+        refine ⟨?_, ih ht⟩
+        intro y hy
+        rcases dinsert_mem x t y hy with h | h
+        · rw [h]
+          cases h3 : blt z.delegator x.delegator with
+          | true => rfl
+          | false => exact absurd (blt_trichotomy _ _ h1 h3) h2
+        · exact hx y h
+
+theorem dfind_absent (l : List Dlg) (k : Bytes) (h : ∀ y ∈ l, y.delegator ≠ k) : dfind l k = none := by
+  induction l with
+  | nil => rfl
+  | cons y t ih =>
+    rw [dfind_cons, if_neg (h y List.mem_cons_self)]
+    exact ih (fun z hz => h z (List.mem_cons_of_mem _ hz))
+
+theorem dsorted_head_absent {y : Dlg} {t : List Dlg} (hs : DSorted (y :: t)) : ∀ z ∈ t, z.delegator ≠ y.delegator := by
+  intro z hz heq
+  have := (List.pairwise_cons.mp hs).1 z hz
+  rw [heq, blt_irrefl] at this
+  exact Bool.noConfusion this
+
+theorem dfind_key {l : List Dlg} {k : Bytes} {y : Dlg} (h : dfind l k = some y) : y.delegator = k ∧ y ∈ l := by
+  induction l with
+  | nil => simp [dfind] at h
+  | cons z t ih =>
+    rw [dfind_cons] at h
+    by_cases hz : z.delegator = k
+    · rw [if_pos hz] at h; simp at h; subst h; exact ⟨hz, List.mem_cons_self⟩
+    · rw [if_neg hz] at h; exact ⟨(ih h).1, List.mem_cons_of_mem _ (ih h).2⟩
+
+/-- a strictly sorted delegation list is determined by its lookup function -/
+theorem dsorted_ext : ∀ (a b : List Dlg), DSorted a → DSorted b → (∀ k, dfind a k = dfind b k) → a = b := by
+  intro a
+  induction a with
+  | nil =>
+    intro b _ _ he
+    cases b with
+    | nil => rfl
+    | cons y u => have := he y.delegator; simp [dfind] at this
+  | cons x t ih =>
+    intro b hsa hsb he
+    cases b with
+    | nil => have := he x.delegator; simp [dfind] at this
+    | cons y u =>
+      have hsa' := List.pairwise_cons.mp hsa
+      have hsb' := List.pairwise_cons.mp hsb
+      have hk : x.delegator = y.delegator := by
+        apply blt_trichotomy
+        · cases h : blt x.delegator y.delegator with
+          | false => rfl
+          | true =>
+            have habs : dfind (y :: u) x.delegator = none := by
+              apply dfind_absent
+              intro z hz heq
+              rcases List.mem_cons.mp hz with hz | hz
+              · rw [hz] at heq; rw [heq, blt_irrefl] at h; exact Bool.noConfusion h
+              · have := blt_trans _ _ _ h (hsb'.1 z hz)
+                rw [heq, blt_irrefl] at this; exact Bool.noConfusion this
+            have := he x.delegator
+            rw [habs, dfind_cons, if_pos rfl] at this
+            simp at this
+        · cases h : blt y.delegator x.delegator with
+          | false => rfl
+          | true =>
+            have habs : dfind (x :: t) y.delegator = none := by
+              apply dfind_absent
+              intro z hz heq
+              rcases List.mem_cons.mp hz with hz | hz
+              · rw [hz] at heq; rw [heq, blt_irrefl] at h; exact Bool.noConfusion h
+              · have := blt_trans _ _ _ h (hsa'.1 z hz)
+                rw [heq, blt_irrefl] at this; exact Bool.noConfusion this
+            have := he y.delegator
+            rw [habs, dfind_cons, if_pos rfl] at this
+            simp at this
+      have hxy : x = y := by
+        have := he x.delegator
+        rw [dfind_cons, if_pos rfl, dfind_cons, if_pos hk.symm] at this
+        simpa using this
+      subst hxy
+      have het : ∀ k, dfind t k = dfind u k := by
+        intro k
+        by_cases hkk : x.delegator = k
+        · subst hkk
+          rw [dfind_absent t _ (dsorted_head_absent hsa), dfind_absent u _ (dsorted_head_absent hsb)]
+        · have := he k; simpa [dfind_cons, hkk] using this
+      rw [ih u hsa'.2 hsb'.2 het]
+
+def dinsertAll (l : List Dlg) (xs : List Dlg) : List Dlg := xs.foldl (fun l x => dinsert x l) l
+
+theorem dinsertAll_sorted (xs l : List Dlg) (hs : DSorted l) : DSorted (dinsertAll l xs) := by
+  induction xs generalizing l with
+  | nil => exact hs
+  | cons x t ih => exact ih _ (dinsert_sorted x l hs)
+
+theorem dfind_dinsertAll_absent (xs l : List Dlg) (k : Bytes) (h : ∀ x ∈ xs, x.delegator ≠ k) : dfind (dinsertAll l xs) k = dfind l k := by
+  induction xs generalizing l with
+  | nil => rfl
+  | cons x t ih =>
+    have := ih (dinsert x l) (fun y hy => h y (List.mem_cons_of_mem _ hy))
+    simp only [dinsertAll, List.foldl_cons] at this ⊢
+    rw [this, dfind_dinsert, if_neg (h x List.mem_cons_self)]
+
+theorem dfind_dinsertAll_mem (xs l : List Dlg) (x : Dlg) (hn : (xs.map (·.delegator)).Nodup) (hm : x ∈ xs) :
+    dfind (dinsertAll l xs) x.delegator = some x := by
+  induction xs generalizing l with
+  | nil => simp at hm
+  | cons y t ih =>
+    simp only [List.map_cons, List.nodup_cons] at hn
+    simp only [dinsertAll, List.foldl_cons]
+    rcases List.mem_cons.mp hm with h | h
+    · subst h
+      have := dfind_dinsertAll_absent t (dinsert x l) x.delegator
+        (fun z hz heq => hn.1 (heq ▸ List.mem_map_of_mem (f := (·.delegator)) hz))
+      simp only [dinsertAll] at this
+      rw [this, dfind_dinsert, if_pos rfl]
+    · have := ih (dinsert y l) hn.2 h
+      simpa [dinsertAll] using this
+
+/-- **the delegation list does not depend on the order in which delegators arrive**: inserting a set of delegations
+with distinct delegators into a sorted list gives the same (sorted) list for every permutation -/
+theorem dinsertAll_perm (l xs ys : List Dlg) (hs : DSorted l) (hp : xs.Perm ys) (hn : (xs.map (·.delegator)).Nodup) :
+    dinsertAll l xs = dinsertAll l ys := by
+  apply dsorted_ext _ _ (dinsertAll_sorted xs l hs) (dinsertAll_sorted ys l hs)
+  intro k
+  have hn2 : (ys.map (·.delegator)).Nodup := (hp.map _).nodup_iff.mp hn
+  by_cases hk : ∃ x ∈ xs, x.delegator = k
+  · obtain ⟨x, hx, e⟩ := hk
+    rw [← e, dfind_dinsertAll_mem xs l x hn hx, dfind_dinsertAll_mem ys l x hn2 (hp.mem_iff.mp hx)]
+  · have h1 : ∀ x ∈ xs, x.delegator ≠ k := fun x hx e => hk ⟨x, hx, e⟩
+    have h2 : ∀ x ∈ ys, x.delegator ≠ k := fun x hx => h1 x (hp.mem_iff.mpr hx)
+    rw [dfind_dinsertAll_absent xs l k h1, dfind_dinsertAll_absent ys l k h2]
 
 
 end YouVerif.C10
